@@ -12,6 +12,12 @@
 //   pknew s s1 d1 | pkown s s2 | pkptr s s2 | pkempty s | pkcopy s p | pkassign p q | pkmove s p
 //   pkmassign p q | pkrelease s p | pkdiv p s2 d2
 //   onew i code len fill | ocopy i j | omove i j | oassign i j | omassign i j | odel i      (PDUOption pool)
+//   copyall <Class> <hex|-> <mode>   all five copy / move operations + clone on ONE populated object of a concrete class
+//        of the generated member table (c12_members_gen.h); `-` = default-constructed and populated through the API;
+//        mode 0: mutate and destroy the copies, the original must not change; 1: destroy the original first, the copies
+//        must survive; 2: mutate the original, the copies must not change, interleaved destruction
+//        -> `ok <Class> cc=. cl=. ti=. ca=. mc=. ma=. ind=. live=<n>` (1 = holds) | SKIP (the bytes do not parse)
+//   copyclasses                      the class list with what the compiler says (is_abstract, copy constructible / assignable)
 //
 // Output: `<status> live=<census> ser=<flags> | <slot> | <slot> ...`, slot = `-`, `P[id:cls:kind:val:par,...]`, `K[...]`;
 //   par = n (null) | u (the layer directly above in the same chain, i.e. its owner) | x<id> (another live layer) | ? (unknown)
@@ -31,6 +37,8 @@
 #include <memory>
 #include <set>
 #include <typeindex>
+#include <type_traits>
+#include "c12_members_gen.h"
 using namespace Tins;
 using namespace vh;
 
@@ -494,6 +502,164 @@ static std::string forest_step(const std::vector<std::string>& w) {
     return show("ok", std::string(sereq ? "1" : "0") + (frame ? "1" : "0"));
 }
 
+// ---------------------------------------------------------------- copyall: every concrete class of the member table
+static std::string ser_plain(PDU* p) {
+    if (!p) return "null";
+    try {
+        if (p->size() == 0) return "empty";
+        PDU::serialization_type b = p->serialize();
+        std::ostringstream o; o << b.size() << ":" << fnv(b.data(), b.size());
+        return o.str();
+    } catch (const std::exception& e) { return "throw:" + exc_name(e); }
+}
+
+template <class K, class = void> struct FromBytes {
+    static K* make(const bytes&) { return 0; }
+};
+template <class K> struct FromBytes<K, typename std::enable_if<std::is_constructible<K, const uint8_t*, uint32_t>::value>::type> {
+    static K* make(const bytes& b) { return new K(b.data(), uint32_t(b.size())); }
+};
+template <class X> struct FromBytes<PDUCacher<X>, void> {
+    static PDUCacher<X>* make(const bytes& b) { X x(b.data(), uint32_t(b.size())); return new PDUCacher<X>(x); }
+};
+template <class K, class = void> struct Default {
+    static K* make() { return 0; }
+};
+template <class K> struct Default<K, typename std::enable_if<std::is_default_constructible<K>::value>::type> {
+    static K* make() { return new K(); }
+};
+
+static const Desc* desc_for(const std::type_info& ti) {
+    std::type_index x(ti);
+    for (size_t i = 0; i < g_desc.size(); ++i) if (g_desc[i].ti == x) return &g_desc[i];
+    return 0;
+}
+
+struct CopyEntry {
+    const char* name;
+    PDU* (*from)(const bytes&);
+    PDU* (*dflt)();
+    PDU* (*copy)(const PDU*);
+    PDU* (*move)(PDU*);
+    void (*assign)(PDU*, const PDU*);
+    void (*massign)(PDU*, PDU*);
+    const std::type_info* ti;
+    bool abstract_, copy_ctor, copy_assign;
+};
+static std::vector<CopyEntry> g_copy;
+template <class T> PDU* t_from(const bytes& b) { return FromBytes<T>::make(b); }
+template <class T> PDU* t_dflt() { return Default<T>::make(); }
+static void build_copy_table() {
+#define C12_ENTRY(NAME, T) { CopyEntry e = { NAME, &t_from<T>, &t_dflt<T>, &t_copy<T>, &t_move<T>, &t_assign<T>, &t_massign<T>, &typeid(T), \
+        std::is_abstract<T>::value, std::is_copy_constructible<T>::value, std::is_copy_assignable<T>::value }; g_copy.push_back(e); }
+    C12_FOR_EACH_CONCRETE(C12_ENTRY)
+#undef C12_ENTRY
+}
+
+static PDU* fresh_default(const CopyEntry& e) {
+    const Desc* d = desc_for(*e.ti);
+    if (d) return d->make();
+    return e.dflt();
+}
+
+// change what the object holds: through the class's setter where the class table has one, else by assigning a
+// default-constructed object of the class; and by giving it another inner layer
+static void mutate(const CopyEntry& e, PDU* p, uint32_t v) {
+    const Desc* d = desc_for(*e.ti);
+    if (d && d->kind != 'f') { uint32_t x = (d->get(p) + v) % 256; d->set(p, x ? x : 1); }
+    else {
+        std::unique_ptr<PDU> alt(fresh_default(e));
+        if (alt.get()) e.assign(p, alt.get());
+    }
+    p->inner_pdu(RawPDU(bytes(3, uint8_t(v))));
+}
+
+static std::string copyall(const CopyEntry& e, const bytes* input, int mode) {
+    long base = VerifHooks::live_pdus();
+    bool cc = false, cl = false, ti = false, ca = false, mc = false, ma = false, ind = true;
+    {
+        std::unique_ptr<PDU> o;
+        try {
+            if (input) o.reset(e.from(*input));
+            else {
+                o.reset(fresh_default(e));
+                const Desc* d = desc_for(*e.ti);
+                if (o.get() && d) d->set(o.get(), 200);                 // an option of 11 bytes: heap-backed
+                if (o.get()) o->inner_pdu(RawPDU(bytes(5, 0x61)));
+            }
+        } catch (const std::exception&) { return "SKIP"; }
+        if (!o.get()) return "SKIP";
+        const std::string s0 = ser_plain(o.get());
+        // the five operations and clone, each on the populated original
+        std::unique_ptr<PDU> c1(e.copy(o.get()));
+        cc = ser_plain(c1.get()) == s0 && typeid(*c1) == typeid(*o);
+        std::unique_ptr<PDU> c2(o->clone());
+        cl = ser_plain(c2.get()) == s0;
+        ti = typeid(*c2) == typeid(*o);
+        std::unique_ptr<PDU> c3(fresh_default(e));
+        if (!c3.get()) { c3.reset(e.copy(o.get())); mutate(e, c3.get(), 3); }
+        e.assign(c3.get(), o.get());
+        ca = ser_plain(c3.get()) == s0;
+        std::unique_ptr<PDU> c4(e.move(c1.get()));
+        mc = ser_plain(c4.get()) == s0;
+        e.assign(c1.get(), o.get());                                 // a moved-from object can be assigned to again
+        mc = mc && ser_plain(c1.get()) == s0;
+        std::unique_ptr<PDU> c5(fresh_default(e));
+        if (!c5.get()) { c5.reset(e.copy(o.get())); mutate(e, c5.get(), 5); }
+        {
+            std::unique_ptr<PDU> tmp(e.copy(o.get()));
+            e.massign(c5.get(), tmp.get());
+        }                                                            // the moved-from source dies here
+        ma = ser_plain(c5.get()) == s0;
+        {
+            std::unique_ptr<PDU> t(e.copy(o.get()));
+            e.massign(t.get(), t.get());                             // onto itself: valid but unspecified; must die cleanly
+        }
+        PDU* copies[4] = { c1.get(), c3.get(), c4.get(), c5.get() };
+        if (mode == 0) {
+            for (int i = 0; i < 4; ++i) { mutate(e, copies[i], 7 + i); ind = ind && ser_plain(o.get()) == s0; }
+            c2->inner_pdu(RawPDU(bytes(2, 1))); ind = ind && ser_plain(o.get()) == s0;
+            c4.reset(); ind = ind && ser_plain(o.get()) == s0;
+            c1.reset(); ind = ind && ser_plain(o.get()) == s0;
+            c2.reset(); c5.reset(); c3.reset(); ind = ind && ser_plain(o.get()) == s0;
+            o.reset();
+        } else if (mode == 1) {
+            o.reset();
+            for (int i = 0; i < 4; ++i) ind = ind && ser_plain(copies[i]) == s0;
+            ind = ind && ser_plain(c2.get()) == s0;
+            c3.reset(); ind = ind && ser_plain(c4.get()) == s0 && ser_plain(c1.get()) == s0;
+            mutate(e, c1.get(), 11); ind = ind && ser_plain(c4.get()) == s0 && ser_plain(c5.get()) == s0;
+            c5.reset(); c4.reset(); c2.reset(); c1.reset();
+        } else {
+            mutate(e, o.get(), 13);
+            for (int i = 0; i < 4; ++i) ind = ind && ser_plain(copies[i]) == s0;
+            ind = ind && ser_plain(c2.get()) == s0;
+            c1.reset(); o.reset(); ind = ind && ser_plain(c3.get()) == s0;
+            c5.reset(); c2.reset(); ind = ind && ser_plain(c4.get()) == s0 && ser_plain(c3.get()) == s0;
+            c3.reset(); c4.reset();
+        }
+    }
+    std::ostringstream out;
+    out << "ok " << e.name << " cc=" << cc << " cl=" << cl << " ti=" << ti << " ca=" << ca << " mc=" << mc << " ma=" << ma
+        << " ind=" << ind << " live=" << (VerifHooks::live_pdus() - base);
+    return out.str();
+}
+
+static std::string copy_step(const std::vector<std::string>& w) {
+    if (w[0] == "copyclasses") {
+        std::ostringstream o;
+        for (size_t i = 0; i < g_copy.size(); ++i)
+            o << (i ? " " : "") << g_copy[i].name << ":a" << g_copy[i].abstract_ << "c" << g_copy[i].copy_ctor << "s" << g_copy[i].copy_assign;
+        return o.str();
+    }
+    if (w.size() != 4 || w[3].size() != 1 || w[3][0] < '0' || w[3][0] > '2') return "bad-op";
+    bytes b;
+    if (w[2] != "-" && !parse_hex(w[2], b)) return "bad-op";
+    for (size_t i = 0; i < g_copy.size(); ++i)
+        if (w[1] == g_copy[i].name) return copyall(g_copy[i], w[2] == "-" ? 0 : &b, w[3][0] - '0');
+    return "bad-op";
+}
+
 static std::string opt_step(const std::vector<std::string>& w) {
     const std::string& op = w[0];
     size_t n = w.size();
@@ -532,6 +698,7 @@ static std::string opt_step(const std::vector<std::string>& w) {
 
 int main() {
     build_table();
+    build_copy_table();
     g_base_live = VerifHooks::live_pdus();
     int rc = line_loop([&](const std::string& line) -> std::string {
         std::vector<std::string> w = words(line);
@@ -556,6 +723,7 @@ int main() {
             for (size_t i = 0; i < g_desc.size(); ++i) o << (i ? " " : "") << i << ":" << g_desc[i].name << ":" << g_desc[i].kind;
             return o.str();
         }
+        if (w[0] == "copyall" || w[0] == "copyclasses") return copy_step(w);
         if (w[0][0] == 'o') return opt_step(w);
         return forest_step(w);
     });
